@@ -1,9 +1,18 @@
 /-
   C07Whole helper proofs (entry point).  The lemmas live in the `Wr*` files:
   `WrFormat`  the `%E*z`, `%E*f`, `%E<n>f` iterations of `formatLoop`; the text written for
-              "%Y-%m-%d%ET%H:%M:%E*S%E*z".
+              "%Y-%m-%d%ET%H:%M:%E*S%E*z" (`full_render`, `fullText_spec`);
+  `WrStep`    one lemma per format element: what `stepSpec` does on the text written for it;
+  `WrLoop`    the text has no NUL / leading white space; the specifier loop ends in `endState`
+              (`specLoop_full`, `loopEnd_full`);
+  `WrTail`    from that state to the result of `parse` (`parse_tail`): civil second rebuilt without
+              normalisation, offset guard false, UNIQUE lookup in the built-in UTC table;
+              the whole round trip (`Wr.full_roundtrip`).
 -/
 import Cctz.Model.Parse
 import Cctz.Spec.FormatSpec
 import Cctz.Spec.TableSem
 import Cctz.Proofs.WrFormat
+import Cctz.Proofs.WrStep
+import Cctz.Proofs.WrLoop
+import Cctz.Proofs.WrTail
